@@ -13,11 +13,19 @@ impl<V> DefMap<V> {
 // IndexMap<(String, Vec<Ty>), TastIdent>: the instance table (opaque here: only that lookups/inserts do not touch anything else)
 #[verifier::external_body] pub struct InstMap { _p: u64 }
 impl InstMap {
+    // which instantiation keys are memoised (the mapped names are not specified)
+    pub uninterp spec fn has(&self, k: (Seq<char>, Seq<Ty>)) -> bool;
     #[verifier::external_body]
-    pub fn get(&self, k: &(String, Vec<Ty>)) -> (r: Option<&TastIdent>) { unimplemented!() }
+    pub fn get(&self, k: &(String, Vec<Ty>)) -> (r: Option<&TastIdent>)
+        ensures (r is Some) == self.has((k.0@, k.1@)),
+    { unimplemented!() }
     #[verifier::external_body]
-    pub fn insert(&mut self, k: (String, Vec<Ty>), v: TastIdent) -> (r: Option<TastIdent>) { unimplemented!() }
+    pub fn insert(&mut self, k: (String, Vec<Ty>), v: TastIdent) -> (r: Option<TastIdent>)
+        ensures forall|q: (Seq<char>, Seq<Ty>)| #[trigger] final(self).has(q) == (old(self).has(q) || q == (k.0@, k.1@)),
+    { unimplemented!() }
 }
+// the memo table only grows
+pub open spec fn memo_grows(o: InstMap, n: InstMap) -> bool { forall|q: (Seq<char>, Seq<Ty>)| #[trigger] o.has(q) ==> n.has(q) }
 impl<V> DefMap<V> {
     pub uninterp spec fn at(&self, k: Seq<char>) -> V;
     #[verifier::external_body]
